@@ -17,6 +17,15 @@ pub struct Framing {
 
 const SYS_MODE: u32 = 7;
 
+fn short_res(r: &Res) -> String {
+    let s = format!("{r:?}");
+    if s.len() > 300 {
+        format!("{}… ({} chars)", s.chars().take(300).collect::<String>(), s.len())
+    } else {
+        s
+    }
+}
+
 fn all_corpus() -> Vec<Script> {
     let mut c = frames::corpus();
     c.extend(frames::boundary_corpus());
@@ -141,7 +150,7 @@ impl Prop for Framing {
                 Some(r) if *r != expected[i] => {
                     return Err((
                         format!("{id}/result-mismatch"),
-                        format!("frame {i} ({:?} as {}): expected {:?}, got {:?}", String::from_utf8_lossy(&script.frames[i]), frames::KIND_NAMES[script.kinds[i]], expected[i], r),
+                        format!("frame {i} ({:?}{} as {}): expected {}, got {}", String::from_utf8_lossy(&script.frames[i][..script.frames[i].len().min(200)]), if script.frames[i].len() > 200 { format!("… {} bytes", script.frames[i].len()) } else { String::new() }, frames::KIND_NAMES[script.kinds[i]], short_res(&expected[i]), short_res(r)),
                     ))
                 }
                 _ => {}
@@ -226,7 +235,7 @@ impl Prop for Framing {
     }
 
     fn rule(&self) -> String {
-        let base = "Each execution = one scripted peer stream (1..8 non-empty NUL-terminated frames: valid / wrong-shape / malformed / whitespace-padded, for six receive target types, sizes steered onto the 256-byte growth steps) x one partition of the stream into deliveries x one schedule of reads (short reads, spurious pending, coalescing). Systematic part: a fixed corpus of short streams with every single cut and every pair of cuts, whole and byte-by-byte. Non-trivial = at least one partial delivery, short read, pending-despite-data or cancellation actually happened; distinct = distinct hash of the (event kind, actor) sequence of the run.";
+        let base = "Each execution = one scripted peer stream (1..8 non-empty NUL-terminated frames — one run in sixteen up to 300 frames, one in sixteen with frames of 1..90 kB around 2^15, 2^16 and far growth steps — valid / wrong-shape / malformed / whitespace-padded, for six receive target types, sizes steered onto the 256-byte growth steps) x one partition of the stream into deliveries x one schedule of reads (short reads, spurious pending, coalescing). Systematic part: a fixed corpus of short streams with every single cut and every pair of cuts, whole and byte-by-byte. Non-trivial = at least one partial delivery, short read, pending-despite-data or cancellation actually happened; distinct = distinct hash of the (event kind, actor) sequence of the run.";
         if self.cancel {
             format!("{base} C07 adds: the pending receive future is dropped at tape-chosen Pending polls (every k-th for every k in the systematic part; probabilistic in the seeded part) and a fresh receive is started.")
         } else {
